@@ -38,12 +38,16 @@ ENGINES = [{"name": "pipe", "gen": gen, "corpus": corpus, "nontrivial": nontrivi
 from props.e2e_common import e2e_engine
 ENGINES.append(e2e_engine("C15"))   # the same histories against a real pipeline over TCP/HTTP
 known_signature = known_signature_for({"KC"})   # KC: e2e engine, finding C15-4
+# gate part: GateMetrics num_updates / num_dropped_updates (src/comms.rs) against the Gate model (theorems C15_gate_*)
+from props.c08 import C15_GATE_ENGINE  # noqa: E402
+ENGINES.append(C15_GATE_ENGINE)
 LEVEL_TEXT = ("Theorems over all message histories of the state-machine model: the three peer gauges equal the numbers read off the peer table at every "
               "point, every counter equals the number of matching events, counters are monotone, the state metric follows the phase. Kernel-checked, "
               "axiom-free; tied to the real code by reading the rendered Prometheus exposition at random quiescent points of generated histories.")
 DESIGN_REF = "DESIGN.md section 6, C15"
 LEVEL_NOTE = ("Trusted: Coq kernel, extraction + OCaml driver, Rust harness and its parser of the Prometheus text. Of the unit level metrics, connected "
               "routers and connections accepted / lost are modelled in E2e/E2eModel.v (accepted = lost + connected for all histories; the rendered gauge "
-              "never exceeds it; known finding C15-4) and read from GET /metrics of a real pipeline by the `e2e` engine; per-type message counts and "
-              "gate metrics are NOT modelled; see DESIGN.md and design-notes/E2E.md.")
+              "never exceeds it; known finding C15-4) and read from GET /metrics of a real pipeline by the `e2e` engine; gate counters (num_updates / "
+              "num_dropped_updates): engine c15gate over the Gate model of C08, theorems C15_gate_*; per-type message counts are NOT modelled; "
+              "see DESIGN.md and design-notes/E2E.md.")
 TECHNIQUE = "Coq proof by invariant over message histories + model/implementation correspondence on rendered metrics"
